@@ -31,10 +31,12 @@ def sh(cmd, cwd, timeout=1200, env=None):
 
 def run_demo(wt: str, demo_src: str) -> tuple[int, str]:
     """0 = demo passes, non-zero = fails."""
-    d = tempfile.mkdtemp(prefix='seed-demo-')
+    # demos may locate test/ relative to their own path (<wt>/_seed/N/)
+    os.makedirs(os.path.join(wt, '_seed'), exist_ok=True)
+    d = tempfile.mkdtemp(prefix='n', dir=os.path.join(wt, '_seed'))
     try:
         src = open(demo_src).read()
-        src = re.sub(r"/tmp/wt/C\d\d", wt, src)
+        src = re.sub(r"/tmp/wt2?/C\d\d", wt, src)
         src = src.replace('$PYMAP_WT', wt)
         p = os.path.join(d, 'test_seed_demo.py')
         open(p, 'w').write(src)
@@ -101,7 +103,7 @@ def main() -> int:
     dest = os.path.join(VERIF, 'seeded', sid)
     os.makedirs(dest, exist_ok=True)
     shutil.copy(patch, os.path.join(dest, 'patch.diff'))
-    src = re.sub(r"/tmp/wt/C\d\d", '$PYMAP_WT', open(demo).read())
+    src = re.sub(r"/tmp/wt2?/C\d\d", '$PYMAP_WT', open(demo).read())
     open(os.path.join(dest, 'demo.py'), 'w').write(
         '# $PYMAP_WT = a checkout of pymap (tools/seedimport.py substitutes '
         'it)\n' + src)
